@@ -118,7 +118,10 @@ def oracle(v, errs):
     # (which field name a message is formatted with is not part of the property: the unchanged code formats the
     # messages below an *of definition nested in another *of definition with the name of the definition node;
     # the render port compares that choice with the model's)
-    return logic_subtrees(r1, errs)
+    msg = logic_subtrees(r1, errs)
+    if msg:
+        return msg
+    return nested_locations(tagged, errs)
 
 
 DEFKEY = re.compile(r'^(allof|anyof|noneof|oneof) definition (\d+)$')
@@ -129,6 +132,38 @@ def node_at(tree, path):
     for k in path[1:]:
         node = node[-1].get(k) if node and isinstance(node[-1], dict) else None
     return node
+
+
+def nested_locations(tagged, errs):
+    """every non-group error — also one inside the definitions of (nested) *of errors and below bulk rules inside them —
+    has its message in the list found at its document path, with one `<rule> definition <i>` node after the path of each
+    enclosing *of error"""
+    def prefix(e):
+        sp = '<str>' if isinstance(e.schema_path, str) else '/'.join(str(x) for x in e.schema_path)
+        return '%d@%s#' % (e.code, sp)
+
+    def visit(es, inserts):
+        # inserts: list of (length of the enclosing *of error's document path, node name), outermost first
+        for e in es:
+            if e.is_logic_error:
+                for i, children in e.definitions_errors.items():
+                    msg = visit(children, inserts + [(len(e.document_path), '%s definition %d' % (e.rule, i))])
+                    if msg:
+                        return msg
+            elif codec.is_group(e):
+                msg = visit(e.info[0], inserts)
+                if msg:
+                    return msg
+            else:
+                path = list(e.document_path)
+                for k, (at, name) in enumerate(inserts):
+                    path.insert(at + k, name)
+                node = node_at(tagged, path) if path else None
+                if not node or not any(isinstance(x, str) and x.startswith(prefix(e)) for x in node):
+                    return ('the message of the error %#x at %r (inside %d *of definition(s)) is not in the list at %r'
+                            % (e.code, tuple(e.document_path), len(inserts), tuple(path)))
+        return None
+    return visit(errs, [])
 
 
 def logic_subtrees(tree, errs):
